@@ -472,6 +472,9 @@ func edGenSession(r *Rand, work bool) (file string, ops []edOp, hit bool) {
 	}
 	for i := 0; i < n; i++ {
 		o := edGenOp(r, a.edDirs, work)
+		if edIsBulk(o.Name) {
+			o.Rev = r.Bool()
+		}
 		if edIsBulk(o.Name) && (len(ops) == 0 || ops[len(ops)-1].Name != "cleanup") {
 			ops = append(ops, edOp{Name: "cleanup"})
 		}
